@@ -24,6 +24,30 @@ CHECKS = {
              "non-ASCII alphanumerics adjacent to a name.  Not covered: strings longer than the "
              "bound that are not 1-2 deviations from the seed.",
         design="DESIGN.md section 3, C04", engine="E1 enumerate"),
+    "C03": dict(
+        category="exploration",
+        technique="exhaustive bounded enumeration of inputs (all lines <= L over a 15-class alphabet, "
+                  "all texts <= n lines over a 41-line alphabet, all 1-/2-line deviations of a 40-line seed, "
+                  "all Unicode code points in fixed contexts) against an independent reference scanner, "
+                  "through two observers",
+        text="Every enumerated text is run through the real ZConfigParser with a recording context and "
+             "through schemaless.loadConfigFile; the event sequence with line numbers, the nested tree, the "
+             "verdict, the error class and the error line are compared with a hand-written reference "
+             "scanner.  The grammar is a pushdown recogniser whose behaviour per line depends only on the "
+             "line class and the open-section stack, so short lines x short texts x deviations of a deep "
+             "seed cover its transitions; exhaustive within the stated bounds.",
+        note="Trusted: vz/ref/lines.py; whitespace = str.isspace(). Which of several faults on one line is "
+             "reported is unspecified. Position of SubstitutionSyntaxError is left to C08.",
+        design="DESIGN.md section 3, C03", engine="E1 enumerate"),
+    "C17": dict(
+        category="exploration",
+        technique="exhaustive bounded enumeration of inputs (the C03 text spaces plus a '$$'/grammar-character "
+                  "line alphabet) with a differential round-trip oracle parse->str->parse->str",
+        text="For every enumerated text the schema-less loader accepts, str() of the result is loaded again "
+             "and must give a structurally equal result whose str() is identical; texts with %define/%include "
+             "must be refused.  Exhaustive within the bounds; the oracle needs no expected values.",
+        note="Trusted: structural comparison in vz/props/c17.py. Known finding: headers ending in '/'.",
+        design="DESIGN.md section 3, C17", engine="E1 enumerate"),
 }
 
 NOT_APPLICABLE = {}
